@@ -490,6 +490,9 @@ FAULTS = {
     "unbalanced_parenthesis": (["unb = 2 * (xm"], ("unit", "unb")),
     "dangling_operator": (["dng = 2 * xm *"], ("unit", "dng")),
     "import_missing_file": (["@import does_not_exist.txt"], None),
+    # references to things that are defined nowhere (pint creates groups on demand internally: a definition must not)
+    "group_using_undefined_group": (["@group gu using nogroup", "    gux = 2 * xm", "@end"], ("group", "gu")),
+    "alias_for_undefined_unit": (["@alias nonexist = nx"], ("unit", "nx")),
 }
 
 
@@ -526,6 +529,11 @@ def case_fault(case, col=None):
             def build():
                 if path == "lines":
                     return pint.UnitRegistry(lines, non_int_type=T)
+                if path == "late":
+                    # the valid part first, the rest through load_definitions on the living registry
+                    u_ = pint.UnitRegistry(list(BASE_LINES), non_int_type=T)
+                    u_.load_definitions(list(extra))
+                    return u_
                 fn = os.path.join(work, "defs.txt")
                 with open(fn, "w", encoding="utf-8") as fh:
                     fh.write("\n".join(lines) + "\n")
@@ -556,9 +564,14 @@ def case_fault(case, col=None):
 
 
 def run_faults(task, tier, seed, col):
-    strat = st.builds(lambda f, p, n, pos: {"fault": f, "path": p, "nit": n, "pos": pos}, st.sampled_from(sorted(FAULTS)), st.sampled_from(["lines", "file", "cache"]),
+    strat = st.builds(lambda f, p, n, pos: {"fault": f, "path": p, "nit": n, "pos": pos}, st.sampled_from(sorted(FAULTS)), st.sampled_from(["lines", "file", "cache", "late"]),
                       st.sampled_from(["float", "Fraction", "Decimal"]), st.integers(2, 9))
-    hyp_search(col, strat, lambda c: case_fault(c, col), max_examples=150 if tier == "quick" else 2500, seed=seed * 173 + task["shard"])
+    # every fault x path x number type once with the statement at the end of the file (enumerated), then random positions
+    for f_ in sorted(FAULTS):
+        for p_ in ("lines", "file", "cache", "late"):
+            for n_ in ("float", "Fraction", "Decimal"):
+                col.run_case(lambda c: case_fault(c, col), {"fault": f_, "path": p_, "nit": n_, "pos": 8})
+    hyp_search(col, strat, lambda c: case_fault(c, col), max_examples=300 if tier == "quick" else 2500, seed=seed * 173 + task["shard"])
 
 
 # ------------------------------------------------------------------------------------- on-disk cache shared by interpreter runs
